@@ -850,3 +850,118 @@ def ctrl9(ctx) -> List[Ob]:
         else:
             out.append(ok("CTRL-9", f2.qualname, key, where, "the value assigned on the arc maps, in the head's table, to the successor the assignment block replaced"))
     return out
+
+
+@rule("CTRL-10", 3, "when a branching block is re-targeted its table and its targets are replaced together, every key is kept, a removed target never survives as a value and a kept target keeps its value")
+def ctrl10(ctx) -> List[Ob]:
+    out: List[Ob] = []
+    cls = ctx.prog.cls("SyntheticBranch")
+    m = cls.methods.get("replace_jump_targets")
+    if m is None:
+        raise AnalysisError("SyntheticBranch.replace_jump_targets not found")
+    cfg = ctx.cfg(m)
+    newp = [p.arg for p in m.params if p.arg != "self"][0]
+    # (i) one replace(...) sets both fields
+    rets = [r for r in A.walk_no_nested(m.node) if isinstance(r, ast.Return) and r.value is not None]
+    key = "targets and table replaced together"
+    good = bool(rets)
+    tbl_name = None
+    for r in rets:
+        v = r.value
+        if not (isinstance(v, ast.Call) and (A.dotted(v.func) or "").split(".")[-1] == "replace"):
+            good = False
+            continue
+        kws = {k.arg: k.value for k in v.keywords}
+        if "_jump_targets" not in kws or "branch_value_table" not in kws or A.unparse(kws["_jump_targets"]) != newp:
+            good = False
+        else:
+            tbl_name = A.unparse(kws["branch_value_table"])
+    if good:
+        out.append(ok("CTRL-10", m.qualname, key, ctx.where(m, rets[0]), f"replace(self, _jump_targets={newp}, branch_value_table={tbl_name})"))
+    else:
+        out.append(bad("CTRL-10", m.qualname, key, ctx.where(m), "the re-targeted block is not returned with both the new targets and the rewritten value table: table and successors diverge"))
+        return out
+    # (ii)/(iii) stores into the new table
+    stores = [s for s in A.walk_no_nested(m.node) if isinstance(s, ast.Assign) and len(s.targets) == 1 and isinstance(s.targets[0], ast.Subscript) and A.unparse(s.targets[0].value) == tbl_name]
+    if not stores:
+        defs = [d for r in rets for d in cfg.reaching_defs(r, tbl_name) if d.stmt is not None]
+        if defs and all((ap := _assign_parts(d.stmt)) is not None and isinstance(ap[1], ast.Dict) and not ap[1].keys for d in defs):
+            out.append(bad("CTRL-10", m.qualname, "table rewritten", ctx.where(m), f"nothing is ever stored into {tbl_name}: the re-targeted block loses its table"))
+        else:
+            out.append(unresolved("CTRL-10", m.qualname, "table rewritten", ctx.where(m), f"the way {tbl_name} is built is not understood by the checker"))
+        return out
+    for s in stores:
+        skey = " ".join(A.unparse(s).split()) + " @ " + ("removed" if _under_not_in(m.node, s, newp) else "kept")
+        where = ctx.where(m, s)
+        # enclosing `for k, v in <old>.items()` and `for target in self._jump_targets`
+        kv = None
+        tgt = None
+        for anc in A.ancestors(s):
+            if isinstance(anc, ast.For) and isinstance(anc.iter, ast.Call) and isinstance(anc.iter.func, ast.Attribute) and anc.iter.func.attr == "items" and isinstance(anc.target, ast.Tuple) and len(anc.target.elts) == 2:
+                kv = kv or (A.unparse(anc.target.elts[0]), A.unparse(anc.target.elts[1]), A.unparse(anc.iter.func.value))
+            if isinstance(anc, ast.For) and "_jump_targets" in A.unparse(anc.iter) and isinstance(anc.target, ast.Name):
+                tgt = tgt or anc.target.id
+        if kv is None or tgt is None:
+            out.append(unresolved("CTRL-10", m.qualname, skey, where, "store into the new table outside the expected loops"))
+            continue
+        k, v, oldtbl = kv
+        if A.unparse(s.targets[0].slice) != k:
+            out.append(bad("CTRL-10", m.qualname, skey, where, f"the new table is keyed by {A.unparse(s.targets[0].slice)}, not by the old key {k}: control values change meaning"))
+            continue
+        # the source table must be the block's own (old) table
+        olddef_ok = oldtbl == "self.branch_value_table" or any(
+            (ap := _assign_parts(d.stmt)) is not None and A.unparse(ap[1]) == "self.branch_value_table"
+            for d in cfg.reaching_defs(s, oldtbl) if d.stmt is not None)
+        if not olddef_ok:
+            out.append(bad("CTRL-10", m.qualname, skey, where, f"entries are copied from {oldtbl}, which is not the block's own value table"))
+            continue
+        val = A.unparse(s.value)
+        removed = _under_not_in(m.node, s, newp)
+        guarded = any(isinstance(a, ast.If) and {A.unparse(a.test.left), A.unparse(a.test.comparators[0])} == {v, tgt} for a in A.ancestors(s) if isinstance(a, ast.If) and isinstance(a.test, ast.Compare) and len(a.test.ops) == 1 and isinstance(a.test.ops[0], ast.Eq))
+        if not guarded:
+            out.append(bad("CTRL-10", m.qualname, skey, where, f"entry copied without the test '{v} == {tgt}': entries of other targets are rewritten too"))
+            continue
+        if removed:
+            # value must be the single new target: next(iter(set(new) - set(old)))
+            okv = False
+            if isinstance(s.value, ast.Name):
+                for d in cfg.reaching_defs(s, s.value.id):
+                    ap = _assign_parts(d.stmt) if d.stmt is not None else None
+                    if ap and "next(iter(" in A.unparse(ap[1]):
+                        src = A.unparse(ap[1])[len("next(iter("):-2]
+                        for d2 in cfg.reaching_defs(d.stmt, src):
+                            ap2 = _assign_parts(d2.stmt) if d2.stmt is not None else None
+                            if ap2 and "difference" in A.unparse(ap2[1]) and newp in A.unparse(ap2[1]) and "_jump_targets" in A.unparse(ap2[1]):
+                                t2 = A.unparse(ap2[1])
+                                # set(new).difference(old), not the other way round
+                                okv = t2.index(newp) < t2.index("_jump_targets")
+            if okv:
+                out.append(ok("CTRL-10", m.qualname, skey, where, f"entries of the removed target are re-pointed to the one new target (set({newp}) - old targets)"))
+            else:
+                out.append(bad("CTRL-10", m.qualname, skey, where, f"entries of a target that is no longer a successor get the value {val}, which is not the single new target: the table names a block that is not a successor"))
+        else:
+            if val in (v, tgt):
+                out.append(ok("CTRL-10", m.qualname, skey, where, "entries of a kept target are copied unchanged"))
+            else:
+                out.append(bad("CTRL-10", m.qualname, skey, where, f"entries of a target that stays a successor are rewritten to {val}"))
+    # both arms exist
+    kinds = {_under_not_in(m.node, s, newp) for s in stores}
+    if kinds != {True, False}:
+        out.append(bad("CTRL-10", m.qualname, "both arms", ctx.where(m), "the table rewrite handles only " + ("removed" if True in kinds else "kept") + " targets: the other entries are dropped from the table"))
+    return out
+
+
+def _under_not_in(fn_node: ast.AST, node: ast.AST, newp: str) -> bool:
+    """node lies in the branch where `<target> not in <new targets>` holds"""
+    child = node
+    for anc in A.ancestors(node):
+        if isinstance(anc, ast.If) and isinstance(anc.test, ast.Compare) and len(anc.test.ops) == 1 and A.unparse(anc.test.comparators[0]) == newp:
+            neg = isinstance(anc.test.ops[0], ast.NotIn)
+            pos = isinstance(anc.test.ops[0], ast.In)
+            if neg or pos:
+                in_body = child in anc.body
+                return (neg and in_body) or (pos and not in_body)
+        if anc is fn_node:
+            break
+        child = anc
+    return False
